@@ -68,12 +68,13 @@ REG = {
         "runners": ["engine", "frame", "api"],
     },
     "C06": {
-        "modules": ["VProofs.Props.C06", "VProofs.Props.NumpyMore", "VProofs.Props.PyListRel", "VProofs.Props.C06More"],
+        "modules": ["VProofs.Props.C06", "VProofs.Props.NumpyMore", "VProofs.Props.PyListRel", "VProofs.Props.C06More", "VProofs.Props.PyListC06"],
         "theorems": thms("C06", ["C06_shape", "C06_lossless_float_integer", "C06_lossless_complex_float",
                                  "C06_lossless_datetime_date", "oks_length", "C06_shape_infer", "C06_nulls_step"]) + ["V.Pd.nulls_pandas",
                     "V.NumpyProps.C06_shape_numpy", "V.NumpyProps.C06_witness_F42", "V.NumpyProps.C06_lossless_float_integer_numpy",
                     "V.NumpyProps.C06_lossless_complex_float_numpy", "V.PyProps.C06_length_list",
-                    "V.C06.applyStr_pointwise", "V.C06.C06_decode_object_targets", "V.C06.C06_decode_string_float", "V.C06.C06_decode_string_complex"],
+                    "V.C06.applyStr_pointwise", "V.C06.C06_decode_object_targets", "V.C06.C06_decode_string_float", "V.C06.C06_decode_string_complex",
+                    "V.PyProps.mapT_pointwise", "V.PyProps.C06_pointwise_list"],
         "runners": ["pandas", "frame", "family", "numpy", "list", "api"],
         "relevant": ["xform", "infer-data", "guard", "relation-missing"],
     },
